@@ -2,3 +2,4 @@
 from pyvc import externals  # noqa: F401  assumed contracts of builtins / numpy
 from . import common  # noqa: F401
 from . import bond  # noqa: F401
+from . import core  # noqa: F401
